@@ -192,5 +192,31 @@ func checkC08(c *Ctx) {
 		shapes = append(shapes, "rand/"+featureKey(g.features))
 	}
 	var inputs []map[string]Val
+	// hand-written programs outside the reference evaluator's subset (a type that is defined,
+	// and given its constructor, inside a method body): expected results written down
+	{
+		type hp struct{ name, src, want string }
+		hps := []hp{
+			{"local-type-with-constructor", "如何造？\n\t输入名字\n\t定义猫：\n\t\t其名 = “无”\n\t如何新建猫？\n\t\t输入名\n\t\t其名 = 名\n\t输出（新建猫：名字）之名\n输出【（造：“咪”），（造：“喵”）】\n", `list[text("咪"),text("喵")]`},
+			{"local-type-default-constructor", "如何造？\n\t定义猫：\n\t\t其名 = “无”\n\t输出（新建猫）之名\n输出【（造），（造）】\n", `list[text("无"),text("无")]`},
+			{"module-type-with-constructor", "定义猫：\n\t其名 = “无”\n如何新建猫？\n\t输入名\n\t其名 = 名\n输出（新建猫：“咪”）之名\n", `text("咪")`},
+			{"local-type-method-and-this", "如何造？\n\t输入名字\n\t定义猫：\n\t\t其名 = “无”\n\t\t如何叫？\n\t\t\t输出 其名\n\t如何新建猫？\n\t\t输入名\n\t\t其名 = 名\n\t令物 = （新建猫：名字）\n\t输出 以物（叫）\n输出（造：“咪”）\n", `text("咪")`},
+		}
+		hreqs := make([]Req, len(hps))
+		for k, h := range hps {
+			hreqs[k] = execReq(h.src)
+		}
+		c.runBatches(hreqs, 10, func(k int, req *Req, resp *Resp) {
+			c.Eval()
+			c.Nontrivial("hand|" + hps[k].name + "|" + resp.Kind)
+			got := resp.Kind
+			if resp.Kind == "value" && resp.Val != nil {
+				got = resp.Val.String()
+			}
+			if got != hps[k].want {
+				c.Violation("hand:"+hps[k].name, fmt.Sprintf("%s: outcome %s %v, expected %s\nprogram:\n%s", hps[k].name, got, resp.Err, hps[k].want, hps[k].src), map[string]interface{}{"req": req})
+			}
+		})
+	}
 	c.runRefCases("call", progs, inputs, shapes, nil, nil)
 }
